@@ -14,12 +14,12 @@ From V Require Import Base.Bytes Base.Regex.
 Import ListNotations.
 
 Inductive action : Type :=
-| ACursor                 (* return Some(cursor) *)
-| ANone                   (* return None *)
-| ABool (b : bool)        (* return true / false *)
-| AConst (n : nat)        (* return Some(n) *)
-| AVariant (s : string)   (* return Some(AlertType::X) / Some(SetextChar::X) *)
-| ATasklist.              (* the tasklist action *)
+| ActCursor                 (* return Some(cursor) *)
+| ActNone                   (* return None *)
+| ActBool (b : bool)        (* return true / false *)
+| ActConst (n : nat)        (* return Some(n) *)
+| ActVariant (s : string)   (* return Some(AlertType::X) / Some(SetextChar::X) *)
+| ActTasklist.              (* the tasklist action *)
 
 Inductive rule : Type :=
 | RPlain (r : re) (a : action)
